@@ -29,12 +29,24 @@ RULE = "one evaluation = one BMC query (all interleavings of one combination of 
 KINDS = ["read", "assign", "aug"]
 
 
+def bound_for(c, **kw):
+  """the statements are loop-free: every operation runs at most once, so the number of operations of the translated programs (+ 2) covers
+  every behaviour (the adequacy query confirms it); computed from the code as it is now, never below the 13 steps per thread used so far"""
+  from vf.e2 import check, ir
+  try:
+    _sc, sysm = check.build(SCN, dict(kinds=tuple(c), **kw))
+    nops = sum(1 for p in sysm.programs for n in p.nodes if isinstance(n, ir.Op))
+  except Exception:
+    nops = 0          # a translation error is reported by the queries themselves
+  return max(13 * len(c), min(nops + 2, 30 * len(c)))
+
+
 def combos(tier):
   two = [c for c in itertools.combinations_with_replacement(KINDS, 2) if c != ("read", "read")]
   three = [("aug", "aug", "aug"), ("assign", "aug", "aug"), ("read", "aug", "aug")]
   if tier == "thorough":
     three = [c for c in itertools.combinations_with_replacement(KINDS, 3) if c.count("read") < 2]
-  return [(c, 13 * len(c)) for c in two] + [(c, 13 * len(c)) for c in three]
+  return [(c, bound_for(c)) for c in two] + [(c, bound_for(c)) for c in three]
 
 
 def bounds(tier):
@@ -57,7 +69,7 @@ def specs(tier):
   # threads that carry the same name (legal; an active object's thread is named after its chart): the attribute must tell them apart anyway
   for c in ([("aug", "assign")] if tier == "quick" else [("aug", "assign"), ("aug", "aug"), ("assign", "aug", "aug")]):
     kw = dict(kinds=tuple(c), same_names=True)
-    K = 13 * len(c)
+    K = bound_for(c, same_names=True)
     out.append(dict(scenario=SCN, kwargs=kw, kind="safety", K=K, pred="tsa_any_bad", timeout=to, replay="tsa_replay"))
     out.append(dict(scenario=SCN, kwargs=kw, kind="deadlock", K=K, pred="someone_open", timeout=to, replay="tsa_replay"))
   return out
